@@ -769,3 +769,26 @@ func init() {
 		return tuple{0, iface{}}
 	})
 }
+
+// (*gcs.Filter).MatchAny / Match: the GCS matcher is btcd's; a harness
+// that works with model filters supplies vpFilterMatchAny(filter, data)
+// in the package under test and the engine delegates to it.
+func init() {
+	delegate := func(single bool) externalFn {
+		return func(fr *frame, a []value) value {
+			i := fr.i
+			hook := i.prog.main.Func("vpFilterMatchAny")
+			if hook == nil {
+				panic(engineError{"(*gcs.Filter).MatchAny reached but the harness package defines no vpFilterMatchAny"})
+			}
+			data := a[2]
+			if single {
+				data = []value{a[2]}
+			}
+			r := call(i, fr, hook.Pos(), hook, []value{a[0], data})
+			return tuple{r, iface{}}
+		}
+	}
+	reg("(*github.com/btcsuite/btcd/btcutil/v2/gcs.Filter).MatchAny", delegate(false))
+	reg("(*github.com/btcsuite/btcd/btcutil/v2/gcs.Filter).Match", delegate(true))
+}
